@@ -362,3 +362,45 @@ func TestVerifC07(t *testing.T) {
 	}
 	exploreCases(t, r, c07Cases(), func(c c07Case) string { return c.Name }, c07Scenario, opts)
 }
+
+// c07BurstCases: more solicitations in one burst than any threshold a "coalesce bursts"
+// heuristic would plausibly use: n distinct sources within 100 ms (and within 1 ms).
+func c07BurstCases() []c07Case {
+	var cs []c07Case
+	ms := time.Millisecond
+	for _, n := range []int{4, 5, 8} {
+		for _, gap := range []time.Duration{0, 20 * ms} {
+			for _, uo := range []bool{false, true} {
+				c := c07Case{Name: fmt.Sprintf("burst-%d/gap=%s/unicast-only=%t", n, gap, uo), UnicastOnly: uo}
+				for i := 0; i < n; i++ {
+					c.RS = append(c.RS, c07RS{Src: fmt.Sprintf("fe80::%x", 0x10+i), SLLA: i%2 == 0, At: 3500*ms + time.Duration(i)*gap})
+				}
+				cs = append(cs, c)
+			}
+		}
+	}
+	return cs
+}
+
+func TestVerifC07Burst(t *testing.T) {
+	r := ev.Begin("C07", "burst")
+	defer r.End(t)
+	r.Rule = "bursts of 4, 5 and 8 solicitations from distinct sources (all at one instant, or 20 ms apart) x unicast_only {off,on} on the instrumented real Advertiser in the canonical goroutine schedule; for bursts of 4 and 5 every random-delay draw combination over {0, 250ms, 499.999999ms} (3^n), for 8 the default draws; oracle as in part 'sched' (each source answered exactly once by unicast within [0,500ms), counters exact)"
+	for _, c := range c07BurstCases() {
+		if len(c.RS) <= 5 {
+			exploreCases(t, r, []c07Case{c}, func(c c07Case) string { return c.Name }, c07Scenario, exploreOpts{Bound: 0, NoEnvCost: true, Budget: 60 * time.Second})
+			continue
+		}
+		if !r.MineKey(c.Name) {
+			continue
+		}
+		sc := c07Scenario(c)
+		x := vsched.RunOnce(t, sc, nil)
+		r.Case(c.Name, true)
+		r.Count("states", 1)
+		r.Count("transitions", int64(x.Steps))
+		for _, v := range sc.Check(x) {
+			r.Violation(v[0], "case "+c.Name+": "+v[1], exploreReplay[c07Case]{Case: c})
+		}
+	}
+}
